@@ -8,6 +8,18 @@ pub struct TypeResolver {
     type_mappings: HashMap<String, String>,
 }
 
+/// `rust_type` without a leading module path: `crate::models::User` -> `User`,
+/// `std::collections::HashMap<String, crate::User>` -> `HashMap<String, crate::User>`
+pub(crate) fn strip_module_path(rust_type: &str) -> &str {
+    let head_end = rust_type
+        .find(['<', '(', '[', ' ', ','])
+        .unwrap_or(rust_type.len());
+    match rust_type[..head_end].rfind("::") {
+        Some(pos) => &rust_type[pos + 2..],
+        None => rust_type,
+    }
+}
+
 /// Byte position of the first comma of `inner` that is not nested inside `<..>`, `(..)` or
 /// `[..]`, i.e. the comma that separates the first type of a list from the rest
 pub(crate) fn find_top_level_comma(inner: &str) -> Option<usize> {
@@ -195,6 +207,14 @@ impl TypeResolver {
         if let Some(inner) = self.extract_reference_type(cleaned) {
             return self.parse_type_structure(&inner);
         }
+
+        // A path-qualified name (crate::models::User, std::collections::HashMap<..>) is read by
+        // its last segment, unless the whole path is the key of a type mapping
+        let cleaned = if self.type_mappings.contains_key(cleaned) {
+            cleaned
+        } else {
+            strip_module_path(cleaned)
+        };
 
         // Handle Option<T> -> Optional(T)
         if let Some(inner_type) = self.extract_option_inner_type(cleaned) {
